@@ -679,6 +679,15 @@ class Interp:
             if isinstance(obj, (AList,)) and isinstance(idx, int):
                 obj.items[idx] = v
                 obj.log.append(("setitem", idx, v))
+            elif isinstance(obj, AList) and isinstance(idx, slice) and idx.step is None and isinstance(v, (AList, bytes, bytearray, list, tuple)):
+                # slice store of equal length (bytearray semantics are only needed for same-size replacement)
+                lo = 0 if idx.start is None else idx.start
+                hi = len(obj.items) if idx.stop is None else idx.stop
+                new_items = list(v.items) if isinstance(v, AList) else list(v)
+                if not (isinstance(lo, int) and isinstance(hi, int) and 0 <= lo <= hi <= len(obj.items) and hi - lo == len(new_items)):
+                    raise AnalysisError(f"absint: slice store [{lo}:{hi}] with {len(new_items)} items at {mod.rel}:{target.lineno}")
+                obj.items[lo:hi] = new_items
+                obj.log.append(("setslice", lo, hi, v))
             elif isinstance(obj, list) and isinstance(idx, int):
                 obj[idx] = v
             elif isinstance(obj, dict):
@@ -1318,6 +1327,18 @@ class Interp:
             raise AnalysisError(f"absint: list method {attr} at {mod.rel}:{e.lineno}")
         if isinstance(obj, int) and not isinstance(obj, bool) and attr == "bit_length" and not args:
             return obj.bit_length()
+        if isinstance(obj, (BV, int)) and not isinstance(obj, bool) and attr == "to_bytes" and len(args) >= 1 and isinstance(args[0], int):
+            # int.to_bytes(n, order): byte k of the little-endian image is bits 8k..8k+7 (unsigned; the caller's range is its own business)
+            order = args[1] if len(args) > 1 else kwargs.get("byteorder", "big")
+            if kwargs.get("signed") or order not in ("little", "big"):
+                raise AnalysisError(f"absint: to_bytes form not modelled at {mod.rel}:{e.lineno}")
+            b = obj if isinstance(obj, BV) else BV.const(obj)
+            n_ = args[0]
+            chunks = [BV(tuple(b.bits[8 * k:8 * k + 8]) + (0,) * (W - 8)) for k in range(n_)]
+            chunks = [c.concrete() if c.concrete() is not None else c for c in chunks]
+            if order == "big":
+                chunks.reverse()
+            return AList(chunks)
         if isinstance(obj, (int, float)) and not isinstance(obj, bool) and attr == "astype" and len(args) == 1 and not kwargs and isinstance(e.args[0], (ast.Attribute, ast.Name)):
             # numpy scalar conversion `x.astype(np.int64)` / `.astype(int)` / `.astype(np.float32)` on a concrete number
             tname = e.args[0].attr if isinstance(e.args[0], ast.Attribute) else e.args[0].id
